@@ -149,12 +149,12 @@ func run(p Plan) (vk.Outcome, error) {
 	}
 	next, batches, expired := 0, 0, 0
 	var verr error
-	giveUp := time.Now().Add(10 * time.Second)
+	sinceStart := vk.ActiveSince() // (active clock: a paused or starved process does not count)
 	for i := 0; verr == nil; i++ {
 		if p.CloseAt >= 0 && batches >= p.CloseAt {
 			break
 		}
-		if time.Now().After(giveUp) {
+		if sinceStart() > 10*time.Second {
 			verr = vk.Violf("stuck", "no end of the batched stream 10 s after the start (source: %d items, gaps <= %d us)", len(p.GapsUs), 3*p.MaxWaitUs)
 			break
 		}
@@ -218,7 +218,7 @@ func run(p Plan) (vk.Outcome, error) {
 	go func() { b.Close(); close(done) }()
 	select {
 	case <-done:
-	case <-time.After(10 * time.Second):
+	case <-vk.After(10 * time.Second):
 		if verr == nil {
 			verr = vk.Violf("close-stuck", "Close has not returned after 10 s")
 		}
